@@ -401,6 +401,13 @@ func c17UpdateRandom(c *Ctx) {
 			s.Parents[len(s.Parents)-1] = c17DigestB
 		}
 	}
+	if r.Chance(1, 10) { // digests among version constraints, in every order, two to four parents
+		pool := []string{c17DigestA, c17DigestA, c17DigestB, ">=1.0.0", "*", "<2.0.0"}
+		s.Parents = nil
+		for _, i := range r.Perm(len(pool))[:r.Range(2, 4)] {
+			s.Parents = append(s.Parents, pool[i])
+		}
+	}
 	s.Installed = c17GenVersion(r)
 	if r.Chance(1, 12) {
 		s.Installed = Pick(r, []string{"latest", c17DigestA, ""})
